@@ -349,9 +349,11 @@ impl Ctx {
                 return;
             }
             let list: Vec<Vec<BigRat>> = self.probes.as_ref().unwrap().get(f).cloned().unwrap_or_default();
+            xq::set_probe_float(true);
             for pin in list.iter().filter(|p| p.len() == inp.len()) {
                 xq::reset();
                 setup();
+                xq::set_float_fallback(true);
                 let xs: Vec<Xq> = pin.iter().map(|r| Xq::new(r.clone())).collect();
                 let res = catch_unwind(AssertUnwindSafe(|| body(&xs).to_out()));
                 let out = match res {
@@ -367,6 +369,7 @@ impl Ctx {
                 let orc = xq::take_log();
                 self.cases.push(Case { f: f.to_string(), inp: pin.clone(), orc, out, tag: "probe".to_string() });
             }
+            xq::set_probe_float(false);
             return;
         }
         xq::reset();
